@@ -1,283 +1,74 @@
 import GqlProofs.PlanSerial
 import GqlProofs.PlanInv
-/-! # The depth-first pass forces everything — when no deferred value yields a func directly
+/-! # Invariants of values under construction: a non-func never completes to a bare closure; response maps have distinct keys
 
-`flatWorld w`: no thunk of the world returns (directly) another func. Then one call of a closure never returns a closure, so
-`dethunkValueDepthFirst` leaves no closure behind (`dfsVal_settles`) and the final pass of a mutation has nothing to do. (On worlds
-that are not flat the library leaves a func in the data of a query, and forces it in the final pass of a mutation: M does the same,
-see `GqlModel/Plan.lean`; the harness does not generate such worlds.) -/
+Used to show that `dethunkValueDepthFirst` leaves no closure behind (`GqlProofs/PlanSettle2.lean`): the loop at every dethunk site
+(`forceLoop`) only stops at a value that is no closure. -/
 namespace GqlModel.Plan
 open GqlModel.Exec GqlModel.Coerce
 
-mutual
-/-- no thunk inside returns a func directly -/
-def flatV : GoVal → Bool
-  | .thunk (.ok v) => (funcOf v).isNone && flatV v
-  | .list xs => flatVs xs
-  | _ => true
-def flatVs : List GoVal → Bool
-  | [] => true
-  | x :: xs => flatV x && flatVs xs
-end
+section notdef
+variable {c : Ctx} {alt : Alt}
 
-def flatOutcome : Outcome → Bool
-  | .value v => flatV v
-  | .fail => true
-
-def flatWorld (w : World) : Bool :=
-  w.objects.all (fun o => o.2.fields.all (fun f => flatOutcome f.2)) && w.rootFields.all (fun f => flatOutcome f.2)
-
-/-- what a closure will call yields no func directly, and is flat inside -/
-def ClFlat (cl : Closure) : Prop :=
-  match cl.r with
-  | some (.ok v) => funcOf v = none ∧ flatV v = true
-  | _ => True
-
-theorem flatVs_iff {xs : List GoVal} : flatVs xs = true ↔ ∀ x ∈ xs, flatV x = true := by
-  induction xs with
-  | nil => simp [flatVs]
-  | cons x xs ih => simp [flatVs, ih]
-
-theorem outcome_flat {w : World} (hw : flatWorld w = true) (src : GoVal) (f : String) :
-    flatOutcome (w.outcome src f) = true := by
-  unfold flatWorld at hw
-  simp only [Bool.and_eq_true, List.all_eq_true] at hw
-  have key : ∀ tbl : List (String × Outcome), (∀ e ∈ tbl, flatOutcome e.2 = true) →
-      flatOutcome (match tbl.find? (fun (p : String × Outcome) => p.1 == f) with
-        | some (_, o) => o
-        | none => Outcome.value GoVal.nil) = true := by
-    intro tbl htbl
-    cases hf : tbl.find? (fun p => p.1 == f) with
-    | none => rfl
-    | some e => obtain ⟨k, o⟩ := e; exact htbl _ (List.mem_of_find?_eq_some hf)
-  unfold World.outcome
-  apply key
-  intro e he
-  cases src with
-  | ref id =>
-    simp only at he
-    cases ho : w.obj? id with
-    | none => simp [ho] at he
-    | some o =>
-      simp only [ho] at he
-      unfold World.obj? at ho
-      cases hfo : w.objects.find? (fun p => p.1 == id) with
-      | none => simp [hfo] at ho
-      | some x =>
-        simp only [hfo, Option.map_some, Option.some.injEq] at ho
-        subst ho
-        exact hw.1 x (List.mem_of_find?_eq_some hfo) e he
-  | _ => exact hw.2 e he
-
-theorem clFlat_of_funcOf {v : GoVal} {r : Option ThunkRes} (hv : flatV v = true) (hf : funcOf v = some r)
-    (t : GType) (rt : String) (fid : FpId) (fp : FieldPlan) (p : Path) :
-    ClFlat { t := t, rt := rt, fid := fid, fp := fp, path := p, r := r } := by
-  unfold ClFlat
-  cases v with
-  | thunk tr =>
-    simp only [funcOf, Option.some.injEq] at hf
-    subst hf
-    cases tr with
-    | err => trivial
-    | ok v' =>
-      simp only [flatV, Bool.and_eq_true, Option.isNone_iff_eq_none] at hv
-      exact hv
-  | badFunc => simp only [funcOf, Option.some.injEq] at hf; subst hf; trivial
-  | _ => simp [funcOf] at hf
-
-section flat
-variable (c : Ctx) (alt : Alt)
-
-local notation "FL" => PVal.AllCl ClFlat
-
-/-- phase one on a flat world only creates flat closures, and a value that is not a func never completes to a bare closure -/
-structure FlatP (fuel : Nat) : Prop where
-  groups : ∀ dfr rt src path sid fps acc st, (∀ x ∈ acc, FL x.2) →
-    ∀ fs, (mGroups c alt fuel dfr rt src path sid fps acc st).1 = .ok fs → ∀ x ∈ fs, FL x.2
-  field : ∀ dfr rt src p fid fp fd st,
-    ∀ v, (mField c alt fuel dfr rt src p fid fp fd st).1 = .ok v → FL v
-  complete : ∀ dfr t rt fid fp p v st, flatV v = true →
-    ∀ x, (mComplete c alt fuel dfr t rt fid fp p v st).1 = .ok x → FL x ∧ (funcOf v = none → ∀ cl, x ≠ .deferred cl)
-  items : ∀ dfr item rt fid fp p xs i acc st, flatVs xs = true → (∀ x ∈ acc, FL x) →
-    ∀ ys, (mItems c alt fuel dfr item rt fid fp p xs i acc st).1 = .ok ys → ∀ y ∈ ys, FL y
-
-variable {c alt}
-
-theorem flatP_zero : FlatP c alt 0 := by
-  refine ⟨?_, ?_, ?_, ?_⟩
-  · intro dfr rt src path sid fps acc st _ fs h; simp only [mGroups] at h; cases h
-  · intro dfr rt src p fid fp fd st v h; simp only [mField] at h; cases h
-  · intro dfr t rt fid fp p v st _ x h; simp only [mComplete] at h; cases h
-  · intro dfr item rt fid fp p xs i acc st _ _ ys h; simp only [mItems] at h; cases h
-
-theorem flatP_groups (fuel : Nat) (ih : FlatP c alt fuel) :
-    ∀ dfr rt src path sid fps acc st, (∀ x ∈ acc, FL x.2) →
-    ∀ fs, (mGroups c alt (fuel + 1) dfr rt src path sid fps acc st).1 = .ok fs → ∀ x ∈ fs, FL x.2 := by
-  intro dfr rt src path sid fps acc st hacc fs h
-  cases fps with
-  | nil => simp only [mGroups, Res.ok.injEq] at h; subst h; exact hacc
-  | cons fp rest =>
-    simp only [mGroups] at h
-    by_cases hp : (!(fp.pred.eval c.schema c.vars)) = true
-    · simp only [hp, if_true] at h; exact ih.groups _ _ _ _ _ _ _ _ hacc fs h
-    · simp only [hp, Bool.false_eq_true, if_false] at h
-      cases hfd : fp.fieldDef with
-      | none => simp only [hfd] at h; exact ih.groups _ _ _ _ _ _ _ _ hacc fs h
-      | some fd =>
-        simp only [hfd] at h
-        have hf := ih.field dfr rt src (path ++ [.key fp.key]) (sid ++ [(rt, fp.key)]) fp fd st
-        generalize mField c alt fuel dfr rt src (path ++ [.key fp.key]) (sid ++ [(rt, fp.key)]) fp fd st = z at hf h
-        obtain ⟨r1, st1⟩ := z
-        cases r1 with
-        | ok v =>
-          simp only at h hf
-          refine ih.groups _ _ _ _ _ _ _ _ ?_ fs h
-          intro x hx
-          rcases List.mem_append.1 hx with hx | hx
-          · exact hacc x hx
-          · simp only [List.mem_singleton] at hx; rw [hx]; exact hf v rfl
-        | fail => simp only at h; cases h
-        | fuelOut => simp only at h; cases h
-
-theorem flatP_field (hw : flatWorld c.world = true) (fuel : Nat) (ih : FlatP c alt fuel) :
-    ∀ dfr rt src p fid fp fd st,
-    ∀ v, (mField c alt (fuel + 1) dfr rt src p fid fp fd st).1 = .ok v → FL v := by
-  intro dfr rt src p fid fp fd st v h
-  simp only [mField] at h
-  by_cases hn : (fd.name == "__typename") = true
-  · simp only [hn, if_true, Res.ok.injEq] at h; subst h; exact allCl_leaf _
-  · simp only [hn, Bool.false_eq_true, if_false] at h
-    have hof := outcome_flat hw src fd.name
-    cases hout : c.world.outcome src fd.name with
-    | fail =>
-      simp only [hout] at h
-      by_cases hnn : fd.type.isNonNull = true
-      · simp only [hnn, if_true] at h; cases h
-      · simp only [hnn, Bool.false_eq_true, if_false, Res.ok.injEq] at h; subst h; exact allCl_leaf _
-    | value gv =>
-      simp only [hout] at h
-      rw [hout] at hof
-      generalize hst : st.logEv _ = st' at h
-      have hc := ih.complete dfr fd.type rt fid fp p gv st' hof
-      generalize mComplete c alt fuel dfr fd.type rt fid fp p gv st' = z at hc h
+/-- a value that is no func never completes to a bare closure (it completes to a leaf, a list or a map) -/
+theorem mComplete_not_deferred : ∀ (fuel : Nat) (dfr : Bool) (t : GType) (rt : String) (fid : FpId) (fp : FieldPlan) (p : Path)
+    (v : GoVal) (st : MSt), funcOf v = none →
+    ∀ x, (mComplete c alt fuel dfr t rt fid fp p v st).1 = .ok x → ∀ cl, x ≠ .deferred cl
+  | 0, dfr, t, rt, fid, fp, p, v, st, _, x, h => by simp only [mComplete] at h; cases h
+  | fuel + 1, dfr, t, rt, fid, fp, p, v, st, hfo, x, h => by
+    have hleaf : ∀ j, (Res.ok (PVal.leaf j) : Res PVal) = .ok x → ∀ cl, x ≠ .deferred cl := by
+      intro j h cl hc
+      simp only [Res.ok.injEq] at h; subst h; cases hc
+    have hgroups : ∀ ot,
+        (match mGroups c alt fuel dfr ot v p fid (alt st.memo fid fp ot).1 [] { st with memo := (alt st.memo fid fp ot).2 } with
+          | (.ok fs, st) => ((Res.ok (PVal.obj fs) : Res PVal), st)
+          | (.fail, st) => (.fail, st)
+          | (.fuelOut, st) => (.fuelOut, st)).1 = .ok x → ∀ cl, x ≠ .deferred cl := by
+      intro ot h
+      generalize mGroups c alt fuel dfr ot v p fid (alt st.memo fid fp ot).1 [] { st with memo := (alt st.memo fid fp ot).2 } = z at h
       obtain ⟨r1, st1⟩ := z
       cases r1 with
-      | ok j => simp only [Res.ok.injEq] at h; subst h; exact (hc j rfl).1
-      | fail =>
-        simp only at h
-        by_cases hnn : fd.type.isNonNull = true
-        · simp only [hnn, if_true] at h; cases h
-        · simp only [hnn, Bool.false_eq_true, if_false, Res.ok.injEq] at h; subst h; exact allCl_leaf _
+      | ok fs => simp only [Res.ok.injEq] at h; subst h; intro cl hc; cases hc
+      | fail => simp only at h; cases h
       | fuelOut => simp only at h; cases h
-
-theorem flatP_items (fuel : Nat) (ih : FlatP c alt fuel) :
-    ∀ dfr item rt fid fp p xs i acc st, flatVs xs = true → (∀ x ∈ acc, FL x) →
-    ∀ ys, (mItems c alt (fuel + 1) dfr item rt fid fp p xs i acc st).1 = .ok ys → ∀ y ∈ ys, FL y := by
-  intro dfr item rt fid fp p xs i acc st hxs hacc ys h
-  cases xs with
-  | nil => simp only [mItems, Res.ok.injEq] at h; subst h; exact hacc
-  | cons x xs =>
-    simp only [flatVs, Bool.and_eq_true] at hxs
-    simp only [mItems] at h
-    have hc := ih.complete dfr item rt fid fp (p ++ [.idx i]) x st hxs.1
-    generalize mComplete c alt fuel dfr item rt fid fp (p ++ [.idx i]) x st = z at hc h
-    obtain ⟨r1, st1⟩ := z
-    have happ : ∀ (y : PVal), FL y → ∀ x ∈ acc ++ [y], FL x := by
-      intro y hy x hx
-      rcases List.mem_append.1 hx with hx | hx
-      · exact hacc x hx
-      · simp only [List.mem_singleton] at hx; rw [hx]; exact hy
-    cases r1 with
-    | ok j => simp only at h; exact ih.items _ _ _ _ _ _ _ _ _ _ hxs.2 (happ j (hc j rfl).1) ys h
-    | fail =>
-      simp only at h
-      by_cases hnn : item.isNonNull = true
-      · simp only [hnn, if_true] at h; cases h
-      · simp only [hnn, Bool.false_eq_true, if_false] at h
-        exact ih.items _ _ _ _ _ _ _ _ _ _ hxs.2 (happ _ (allCl_leaf _)) ys h
-    | fuelOut => simp only at h; cases h
-
-theorem flatP_complete (fuel : Nat) (ih : FlatP c alt fuel) :
-    ∀ dfr t rt fid fp p v st, flatV v = true →
-    ∀ x, (mComplete c alt (fuel + 1) dfr t rt fid fp p v st).1 = .ok x → FL x ∧ (funcOf v = none → ∀ cl, x ≠ .deferred cl) := by
-  intro dfr t rt fid fp p v st hv x h
-  have hgroups : ∀ ot,
-      (match mGroups c alt fuel dfr ot v p fid (alt st.memo fid fp ot).1 [] { st with memo := (alt st.memo fid fp ot).2 } with
-        | (.ok fs, st) => ((Res.ok (PVal.obj fs) : Res PVal), st)
-        | (.fail, st) => (.fail, st)
-        | (.fuelOut, st) => (.fuelOut, st)).1 = .ok x → FL x ∧ ∀ cl, x ≠ .deferred cl := by
-    intro ot h
-    have hg := ih.groups dfr ot v p fid (alt st.memo fid fp ot).1 [] { st with memo := (alt st.memo fid fp ot).2 }
-      (fun _ h => by cases h)
-    generalize mGroups c alt fuel dfr ot v p fid (alt st.memo fid fp ot).1 [] { st with memo := (alt st.memo fid fp ot).2 } = z at hg h
-    obtain ⟨r1, st1⟩ := z
-    cases r1 with
-    | ok fs =>
-      simp only [Res.ok.injEq] at h; subst h
-      exact ⟨allCl_obj.2 (hg fs rfl), fun cl hc => by cases hc⟩
-    | fail => simp only at h; cases h
-    | fuelOut => simp only at h; cases h
-  have hleaf : ∀ j, (Res.ok (PVal.leaf j) : Res PVal) = .ok x → FL x ∧ ∀ cl, x ≠ .deferred cl := by
-    intro j h
-    simp only [Res.ok.injEq] at h; subst h
-    exact ⟨allCl_leaf _, fun cl hc => by cases hc⟩
-  have wk : (FL x ∧ ∀ cl, x ≠ .deferred cl) → FL x ∧ ((none : Option (Option ThunkRes)) = none → ∀ cl, x ≠ .deferred cl) :=
-    fun hh => ⟨hh.1, fun _ => hh.2⟩
-  simp only [mComplete] at h
-  cases hfo : funcOf v with
-  | some r =>
-    simp only [hfo, Res.ok.injEq] at h
-    subst h
-    exact ⟨allCl_deferred.2 (clFlat_of_funcOf hv hfo _ _ _ _ _), fun hh => by cases hh⟩
-  | none =>
-    simp only [hfo] at h
+    simp only [mComplete, hfo] at h
     cases t with
     | nonNull inner =>
       simp only at h
-      have hc := ih.complete dfr inner rt fid fp p v st hv
-      generalize mComplete c alt fuel dfr inner rt fid fp p v st = z at hc h
+      have ih := mComplete_not_deferred fuel dfr inner rt fid fp p v st hfo
+      generalize mComplete c alt fuel dfr inner rt fid fp p v st = z at ih h
       obtain ⟨r1, st1⟩ := z
       split at h
       · simp only at h; cases h
       · cases r1 with
-        | ok j => simp only [Res.ok.injEq] at h; subst h; exact ⟨(hc j rfl).1, fun _ => (hc j rfl).2 hfo⟩
+        | ok j => simp only [Res.ok.injEq] at h; subst h; exact ih j rfl
         | fail => simp only at h; cases h
         | fuelOut => simp only at h; cases h
     | list item =>
       simp only at h
       by_cases hnull : v.nullish = true
-      · simp only [hnull, if_true] at h; exact wk (hleaf _ h)
+      · simp only [hnull, if_true] at h; exact hleaf _ h
       · simp only [hnull, Bool.false_eq_true, if_false] at h
         cases hl : listOf v with
         | none => simp only [hl] at h; cases h
         | some xs =>
           simp only [hl] at h
-          have hxs : flatVs xs = true := by
-            cases v with
-            | list ys =>
-              simp only [listOf, Option.some.injEq] at hl
-              subst hl
-              simpa only [flatV] using hv
-            | _ => simp [listOf] at hl
-          have hi := ih.items dfr item rt fid fp p xs 0 [] st hxs (fun _ h => by cases h)
-          generalize mItems c alt fuel dfr item rt fid fp p xs 0 [] st = z at hi h
+          generalize mItems c alt fuel dfr item rt fid fp p xs 0 [] st = z at h
           obtain ⟨r1, st1⟩ := z
           cases r1 with
-          | ok js =>
-            simp only [Res.ok.injEq] at h; subst h
-            exact ⟨allCl_list.2 (hi js rfl), fun _ cl hc => by cases hc⟩
+          | ok js => simp only [Res.ok.injEq] at h; subst h; intro cl hc; cases hc
           | fail => simp only at h; cases h
           | fuelOut => simp only at h; cases h
     | named n =>
       simp only at h
       by_cases hnull : v.nullish = true
-      · simp only [hnull, if_true] at h; exact wk (hleaf _ h)
+      · simp only [hnull, if_true] at h; exact hleaf _ h
       · simp only [hnull, Bool.false_eq_true, if_false] at h
         by_cases hlf : c.schema.isLeaf n = true
         · simp only [hlf, if_true] at h
           cases hs : serializeLeaf c.schema n v with
           | none => simp only [hs] at h; cases h
-          | some j => simp only [hs] at h; exact wk (hleaf _ h)
+          | some j => simp only [hs] at h; exact hleaf _ h
         · simp only [hlf, Bool.false_eq_true, if_false] at h
           by_cases habs : c.schema.isAbstract n = true
           · simp only [habs, if_true] at h
@@ -287,65 +78,32 @@ theorem flatP_complete (fuel : Nat) (ih : FlatP c alt fuel) :
               simp only [hrt] at h
               by_cases hposs : (!(c.schema.isObject ot && c.schema.isPossibleType n ot)) = true
               · simp only [hposs, if_true] at h; cases h
-              · simp only [hposs, Bool.false_eq_true, if_false] at h; exact wk (hgroups ot h)
+              · simp only [hposs, Bool.false_eq_true, if_false] at h; exact hgroups ot h
           · simp only [habs, Bool.false_eq_true, if_false] at h
             by_cases hobj : c.schema.isObject n = true
             · simp only [hobj, if_true] at h
               by_cases hito : (objectHasIsTypeOf c.schema n && !c.world.isTypeOfAns n v) = true
               · simp only [hito, if_true] at h; cases h
-              · simp only [hito, Bool.false_eq_true, if_false] at h; exact wk (hgroups n h)
+              · simp only [hito, Bool.false_eq_true, if_false] at h; exact hgroups n h
             · simp only [hobj, Bool.false_eq_true, if_false] at h; cases h
 
-theorem flatP (hw : flatWorld c.world = true) : ∀ fuel, FlatP c alt fuel
-  | 0 => flatP_zero
-  | fuel + 1 =>
-    have ih := flatP hw fuel
-    ⟨flatP_groups fuel ih, flatP_field hw fuel ih, flatP_complete fuel ih, flatP_items fuel ih⟩
+/-- the loop at a dethunk site only stops at a value that is no closure -/
+theorem forceLoop_not_deferred {frc : Closure → MSt → Res PVal × MSt} :
+    ∀ (n : Nat) (v : PVal) (st : MSt) (x : PVal), (forceLoop frc n v st).1 = .ok x → ∀ cl, x ≠ .deferred cl
+  | 0, v, st, x, h => by simp only [forceLoop] at h; cases h
+  | n + 1, .leaf j, st, x, h => by simp only [forceLoop, Res.ok.injEq] at h; subst h; intro cl hc; cases hc
+  | n + 1, .list xs, st, x, h => by simp only [forceLoop, Res.ok.injEq] at h; subst h; intro cl hc; cases hc
+  | n + 1, .obj fs, st, x, h => by simp only [forceLoop, Res.ok.injEq] at h; subst h; intro cl hc; cases hc
+  | n + 1, .deferred cl, st, x, h => by
+    simp only [forceLoop] at h
+    generalize frc cl st = z at h
+    obtain ⟨r1, st1⟩ := z
+    cases r1 with
+    | ok y => exact forceLoop_not_deferred n y st1 x h
+    | fail => simp only at h; cases h
+    | fuelOut => simp only at h; cases h
 
-/-- on a flat world one call of a flat closure yields a value that is not a closure, with flat closures inside -/
-theorem force_flat (hw : flatWorld c.world = true) (fuel : Nat) (cl : Closure) (st : MSt) (hcl : ClFlat cl) :
-    ∀ x, (force c alt fuel cl st).1 = .ok x → FL x ∧ ∀ cl', x ≠ .deferred cl' := by
-  intro x h
-  unfold force at h
-  have hleaf : (Res.ok (PVal.leaf .null) : Res PVal) = .ok x → FL x ∧ ∀ cl', x ≠ .deferred cl' := by
-    intro h
-    simp only [Res.ok.injEq] at h; subst h
-    exact ⟨allCl_leaf _, fun _ hc => by cases hc⟩
-  cases hcr : cl.r with
-  | none =>
-    simp only [hcr] at h
-    by_cases hnn : cl.t.isNonNull = true
-    · simp only [hnn, if_true] at h; cases h
-    · simp only [hnn, Bool.false_eq_true, if_false] at h; exact hleaf h
-  | some r =>
-    simp only [hcr] at h
-    cases r with
-    | err =>
-      simp only at h
-      by_cases hnn : cl.t.isNonNull = true
-      · simp only [hnn, if_true] at h; cases h
-      · simp only [hnn, Bool.false_eq_true, if_false] at h; exact hleaf h
-    | ok v =>
-      simp only at h
-      unfold ClFlat at hcl
-      rw [hcr] at hcl
-      simp only at hcl
-      have hc := (flatP (c := c) (alt := alt) hw fuel).complete true cl.t cl.rt cl.fid cl.fp cl.path v
-        (st.logEv (.force cl.path)) hcl.2
-      generalize mComplete c alt fuel true cl.t cl.rt cl.fid cl.fp cl.path v (st.logEv (.force cl.path)) = z at hc h
-      obtain ⟨r1, st1⟩ := z
-      cases r1 with
-      | ok y =>
-        simp only [Res.ok.injEq] at h; subst h
-        exact ⟨(hc _ rfl).1, (hc _ rfl).2 hcl.1⟩
-      | fail =>
-        simp only at h
-        by_cases hnn : cl.t.isNonNull = true
-        · simp only [hnn, if_true] at h; cases h
-        · simp only [hnn, Bool.false_eq_true, if_false] at h; exact hleaf h
-      | fuelOut => simp only at h; cases h
-
-end flat
+end notdef
 
 /-! ## response maps have distinct keys -/
 
@@ -616,6 +374,27 @@ theorem force_nd (ha : AltND alt) (fuel : Nat) (cl : Closure) (st : MSt) :
         · simp only [hnn, if_true] at h; cases h
         · simp only [hnn, Bool.false_eq_true, if_false] at h; exact hleaf h
       | fuelOut => simp only at h; cases h
+
+/-- the loop keeps maps with distinct keys -/
+theorem forceLoop_nd {frc : Closure → MSt → Res PVal × MSt} (hf : ∀ cl st x, (frc cl st).1 = .ok x → NDv x) :
+    ∀ (n : Nat) (v : PVal) (st : MSt), NDv v → ∀ x, (forceLoop frc n v st).1 = .ok x → NDv x
+  | 0, v, st, _, x, h => by simp only [forceLoop] at h; cases h
+  | n + 1, .leaf j, st, hv, x, h => by simp only [forceLoop, Res.ok.injEq] at h; subst h; exact hv
+  | n + 1, .list xs, st, hv, x, h => by simp only [forceLoop, Res.ok.injEq] at h; subst h; exact hv
+  | n + 1, .obj fs, st, hv, x, h => by simp only [forceLoop, Res.ok.injEq] at h; subst h; exact hv
+  | n + 1, .deferred cl, st, _, x, h => by
+    simp only [forceLoop] at h
+    have ha := hf cl st
+    generalize frc cl st = z at ha h
+    obtain ⟨r1, st1⟩ := z
+    cases r1 with
+    | ok y => exact forceLoop_nd hf n y st1 (ha y rfl) x h
+    | fail => simp only at h; cases h
+    | fuelOut => simp only at h; cases h
+
+theorem forceAll_nd (ha : AltND alt) (fuel : Nat) (cl : Closure) (st : MSt) :
+    ∀ x, (forceAll c alt fuel cl st).1 = .ok x → NDv x :=
+  forceLoop_nd (fun cl st x h => force_nd ha fuel cl st x h) fuel (.deferred cl) st (ndv_deferred cl)
 
 end nd
 
